@@ -178,13 +178,16 @@ def run(ctx: Ctx) -> None:
     drv = Driver()
     try:
         miniblock.tie(ctx, drv, 2500 if quick else 60000)
+        miniblock.tie_quote(ctx, drv, 2500 if quick else 60000)
     finally:
         drv.close()
     ctx.partial += [
         "the per-rule map contract (every token a rule pushes at its own level has a map inside [startLine, state.line)) is "
         "a hypothesis of the engine theorem; it is PROVED (Props/C03b.lean: mapOK_*) for code, fence, hr, heading and "
         "paragraph, giving the unconditional theorem mini_staged for that sub-parser (model tied by the `miniblock` "
-        "differential runs); for the other rules it is monitored on every real rule call; 'starts on a non-blank line', 'ends on a "
+        "differential runs), and for the container rule blockquote (Props/C03c.lean: loop_line_ge, loop_maps_final — stages end "
+        "no later than the loop's final line, so the quote's patched map encloses its content — qChain_maps, q_staged; tie "
+        "`qblock`); for the other rules it is monitored on every real rule call; 'starts on a non-blank line', 'ends on a "
         "non-blank line', inline content lines and coverage are decided by the oracle",
     ]
 
